@@ -20,6 +20,10 @@ mod memory;
 mod options;
 mod sealed;
 
+#[cfg(rarena_verif)]
+#[allow(missing_docs)]
+pub mod verif_hook;
+
 #[cfg(test)]
 #[macro_use]
 mod tests;
@@ -889,6 +893,8 @@ impl Meta {
   unsafe fn clear<A: Allocator>(&self, arena: &A) {
     unsafe {
       let ptr = arena.raw_mut_ptr().add(self.ptr_offset as usize);
+      #[cfg(rarena_verif)]
+      crate::verif_hook::announce(ptr as usize, crate::verif_hook::Access::Clear);
       core::ptr::write_bytes(ptr, 0, self.ptr_size as usize);
     }
   }
